@@ -5,6 +5,7 @@ import (
 	"sort"
 	"strings"
 
+	"semtest/ext"
 	"semtest/sem"
 )
 
@@ -389,4 +390,65 @@ func phase3d() {
 			return "(" + bs(d) + ", " + bs(r) + ", " + z(int64(k)) + ")"
 		})
 	}
+}
+
+func phase3e() {
+	const F = "50%nat"
+	type tb = sem.Table[int16]
+	mk := func(keys []string, vals []int16, nidx int) *tb {
+		t := &tb{Seed: ext.Seed{K: 3}}
+		for i, k := range keys {
+			t.Items = append(t.Items, sem.Ent[int16]{Off: len(t.Data), Sz: uint32(len(k)), V: vals[i]})
+			t.Data = append(t.Data, k...)
+		}
+		t.Data = t.Data[:len(t.Data):len(t.Data)] // cap = len: the translator's model of slices
+		t.Idx = make([]int32, nidx)
+		for i := range t.Idx {
+			t.Idx[i] = -1
+		}
+		// every slot points at the first item (Find scans forward from there), slot 1 stays empty
+		for i := range t.Idx {
+			if i != 1 && len(t.Items) > 0 {
+				t.Idx[i] = 0
+			}
+		}
+		return t
+	}
+	lit := func(t *tb) string {
+		var its, idx []string
+		for _, e := range t.Items {
+			its = append(its, "("+z(int64(e.Off))+", "+zu(uint64(e.Sz))+", "+z(int64(e.V))+")")
+		}
+		for _, i := range t.Idx {
+			idx = append(idx, z(int64(i)))
+		}
+		return bs(t.Data) + " [" + strings.Join(its, "; ") + "] [" + strings.Join(idx, "; ") + "]"
+	}
+	tables := []*tb{mk(nil, nil, 0), mk(nil, nil, 3), mk([]string{"ab", "c", ""}, []int16{5, -6, 7}, 4), mk([]string{"x"}, []int16{9}, 1)}
+	// a table whose last item points outside data: Find panics when it gets there
+	bad := mk([]string{"ab", "c"}, []int16{1, 2}, 2)
+	bad.Items[1].Off = 7
+	tables = append(tables, bad)
+	for _, t := range tables {
+		for _, s := range []string{"ab", "c", "", "zz", "x"} {
+			t, s := t, s
+			ex(fmt.Sprintf("g_sem_Find Z 0 ext_keyed %s false %s %s", F, lit(t), bs([]byte(s))), func() string {
+				v, ok := t.Find(s)
+				return "(" + lit2(t, lit) + ", " + z(int64(v)) + ", " + bl(ok) + ")"
+			})
+		}
+		t := t
+		ex(fmt.Sprintf("g_sem_Sizes Z 0 false %s", lit(t)), func() string { return "(" + lit2(t, lit) + ", " + z(int64(t.Sizes())) + ")" })
+	}
+	ex("g_sem_Find Z 0 ext_keyed "+F+" true (nil : bytes) [] [] (nil : bytes)", func() string {
+		var t *tb
+		v, ok := t.Find("")
+		return "(" + z(int64(v)) + ", " + bl(ok) + ")"
+	})
+}
+
+// the three fields as the components of a result tuple
+func lit2[T any](t T, f func(T) string) string {
+	parts := strings.SplitN(f(t), " [", 3)
+	return parts[0] + ", [" + parts[1] + ", [" + parts[2]
 }
